@@ -1,7 +1,7 @@
 """Worker for C11: replay a TREE of generate-histories with real `generate_client` calls into sandbox projects.
 
 Job (stdin: JSON list):
-  {"id", "root": dir, "depth": 0..4, "layout": "sib"|"api", "hists": [[[client, [codes], force], ...], ...],
+  {"id", "root": dir, "depth": 0..4, "layout": "sib"|"api"|"far", "naming": "plain"|"n1"|"n2", "hists": [[[client, [codes], force], ...], ...],
    "spawn_every": N}
 `hists` are the nodes (histories) of one sub-tree of the history tree; every proper prefix needed to reach them
 is executed too (and reported).  The tree is walked depth first; the project directory of a node is copied
@@ -37,21 +37,47 @@ from typing import Any
 
 PY = os.environ.get("VERIF_PY", "/venv/bin/python")
 
-PREFIX = {1: "", 2: "a.", 3: "a.b.", 4: "a.b.c."}
-
 OPS = [("items", "get", "/items", "list_items"), ("orders", "post", "/orders", "create_order")]
+
+PRE = {0: [], 1: [], 2: ["a"], 3: ["a", "b"], 4: ["a", "b", "c"]}
+
+# How the abstract name atoms of a layout are spelled.  "plain": unrelated names.  The other namings make one package
+# name a STRING prefix of another without being its parent package ("n1": the first client's name is a prefix of the
+# core's, of its parent's and of the other clients' names; "n2": the core's name is a prefix of the clients' names and
+# the clients' names are prefixes of each other).  SharedCore.tla treats names as atoms: the spelling must not matter.
+NAMINGS = {
+    "plain": {},
+    "n1": {"c1": "shop", "c2": "shop2", "c3": "shop2b", "core": "shop_core", "a": "shop_shared", "b": "shop_sharedb", "c": "sh"},
+    "n2": {"core": "api", "c1": "api_v2", "c2": "api_v21", "c3": "api_v3", "a": "ap", "b": "api_", "c": "a"},
+}
 
 
 # ---------------------------------------------------------------------------------------------
-# layout: abstract (client id, core depth, layout) -> package names
+# layout: abstract (client id, core depth, layout) -> package paths (lists of name atoms) -> package names
 
 
-def packages(cid: str, depth: int, layout: str) -> tuple[str, str | None]:
-    """-> (client package, core_package argument or None for the embedded layout)"""
+def abstract_paths(cid: str, depth: int, layout: str) -> tuple[list[str], list[str]]:
+    """-> (path of the client package, path of the shared core package or [] for the embedded layout).
+    sib: client is a sibling of the core; api: client one package below a sibling of the core;
+    far: client top-level, core in an unrelated branch (depth >= 2)."""
     if depth == 0:
-        return (cid if layout == "sib" else f"a.{cid}.api"), None
-    pre = PREFIX[depth]
-    return (f"{pre}{cid}" if layout == "sib" else f"{pre}{cid}.api"), f"{pre}core"
+        return ([cid] if layout == "sib" else ["a", cid, "api"]), []
+    pre = PRE[depth]
+    core = pre + ["core"]
+    if layout == "sib":
+        return pre + [cid], core
+    if layout == "api":
+        return pre + [cid, "api"], core
+    if layout == "far":
+        return [cid], core
+    raise ValueError(layout)
+
+
+def packages(cid: str, depth: int, layout: str, naming: str = "plain") -> tuple[str, str | None]:
+    """-> (client package, core_package argument or None for the embedded layout)"""
+    m = NAMINGS[naming]
+    cp, core = abstract_paths(cid, depth, layout)
+    return ".".join(m.get(x, x) for x in cp), (".".join(m.get(x, x) for x in core) if core else None)
 
 
 def core_of(pkg: str, core_arg: str | None) -> str:
@@ -305,7 +331,7 @@ def _is_broken(ob: dict) -> bool:
 def run_job(job: dict, prober: Prober) -> dict:
     from harness.w_gen import run_job as generate
 
-    depth, layout = job["depth"], job["layout"]
+    depth, layout, naming = job["depth"], job["layout"], job.get("naming", "plain")
     base = Path(job["root"])
     shutil.rmtree(base, ignore_errors=True)
     base.mkdir(parents=True)
@@ -319,7 +345,7 @@ def run_job(job: dict, prober: Prober) -> dict:
     counter = [0]
     confirmed = [False]  # the first broken observation of a job is confirmed from a newly exec'ed interpreter
     spawn_every = int(job.get("spawn_every") or 0)
-    shared_core = packages("c1", depth, layout)[1]
+    shared_core = packages("c1", depth, layout, naming)[1]
 
     def walk(node: dict, ndir: Path, hist: list, gen_clients: list[str]) -> None:
         for key in sorted(node):
@@ -327,7 +353,7 @@ def run_job(job: dict, prober: Prober) -> dict:
             counter[0] += 1
             d = base / f"n{counter[0]}"
             shutil.copytree(ndir, d, symlinks=True)
-            pkg, core_arg = packages(cid, depth, layout)
+            pkg, core_arg = packages(cid, depth, layout, naming)
             existed = _pkg_dir(str(d), pkg).exists()
             g = generate({"id": f"s{counter[0]}", "root": str(d), "spec": spec_for(cid, codes), "pkg": pkg, "core": core_arg, "force": force, "nopp": True})
             clients_now = gen_clients if cid in gen_clients else gen_clients + [cid]
@@ -335,9 +361,9 @@ def run_job(job: dict, prober: Prober) -> dict:
                 "root": str(d),
                 "shared_core": shared_core,
                 "clients": [
-                    {"id": c, "pkg": packages(c, depth, layout)[0], "core": core_of(*packages(c, depth, layout))}
+                    {"id": c, "pkg": packages(c, depth, layout, naming)[0], "core": core_of(*packages(c, depth, layout, naming))}
                     for c in clients_now
-                    if _pkg_dir(str(d), packages(c, depth, layout)[0]).exists()
+                    if _pkg_dir(str(d), packages(c, depth, layout, naming)[0]).exists()
                 ],
             }
             ob = prober.fork(req)
